@@ -124,7 +124,17 @@ def maxmin_mul_signed(o, k):
     if not any(s in lab for s in ("normalize", "optimizer", "unfold")):
         return False
     def has_mul(e):
-        return any(n[0] == "binary" and n[1] in ("mul", "truediv") for n in _nodes(e))
+        for n in _nodes(e):
+            if n[0] == "binary" and n[1] in ("mul", "truediv"):
+                return True
+            if n[0] == "reduce" and n[1] == "add":      # a sum over a variable its argument lacks is a product with the multiplicity
+                try:
+                    ins = type_of(n[2])[0]
+                except Exception:
+                    continue
+                if any(name not in ins for name, _ in n[3]):
+                    return True
+        return False
     if not any(n[0] == "reduce" and n[1] in ("max", "min") and has_mul(n[2]) for n in _nodes(p)):
         return False
     signed = any((n[0] == "unary" and n[1] == "neg") or (n[0] == "binary" and n[1] == "sub") or
